@@ -724,10 +724,6 @@ func drawTable(rt *rapid.T, o *genOpts) *tableDef {
 				td.kind("column-level-check")
 			}
 		}
-		if false {
-			c.ColCheck = "CHECK (" + qid(c.Name) + " <> 3)"
-			td.kind("column-level-check")
-		}
 		td.Cols = append(td.Cols, c)
 	}
 
